@@ -97,7 +97,7 @@ def main():
         "setup_cmd": "./setup.sh",
         "hooks": {
             "guard": "verif",
-            "enable": "go1.26.8 test -c -tags verif -overlay build/overlay/overlay.json (the overlay adds seams to the go1.26.8 runtime and os packages that are inert until the simulator installs its functions: select poll order, a hook at the start of multi-case selects of synctest-bubble goroutines, goroutine id, file-operation hook; /repo only gains two new files guarded by //go:build verif)",
+            "enable": "go1.26.8 test -c -tags verif -overlay build/overlay/overlay.json (the overlay adds seams to the go1.26.8 runtime and os packages that are inert until the simulator installs its functions: select poll order, a hook at the start of multi-case selects of synctest-bubble goroutines, goroutine id, file-operation hook, RWMutex read-lock hook; /repo only gains two new files guarded by //go:build verif)",
             "baseline_off_cmd": "cd /repo && go test -mod=mod -json -vet=off -count=1 -timeout 25m ./...",
             "source_commits": hook_commits,
             "add_only": True,
